@@ -37,6 +37,12 @@ def main():
             continue
         path = os.path.join(REPO, m["file"])
         src = open(path).read()
+        if m.get("regex"):
+            import re as _re
+            new = src
+            for pat, rep in m["regex"]:
+                new = _re.sub(pat, rep, new)
+            m = dict(m, old=src, new=new)
         if src.count(m["old"]) != 1:
             print("%-40s SKIP: anchor text occurs %d times" % (mid, src.count(m["old"])))
             results[mid] = {"result": "skipped (anchor text occurs %d times)" % src.count(m["old"]), "hash": hash_of(m)}
@@ -71,7 +77,7 @@ def main():
 
 def hash_of(m):
     import hashlib
-    return hashlib.sha1((m["file"] + "\0" + m["old"] + "\0" + m["new"]).encode()).hexdigest()[:12]
+    return hashlib.sha1((m["file"] + "\0" + m["old"] + "\0" + m["new"] + repr(m.get("regex"))).encode()).hexdigest()[:12]
 
 
 if __name__ == "__main__":
